@@ -51,7 +51,9 @@ PeInvalidRange == 8
 PeInvalidRequest == 9
 
 \* what the application's write callback returns for a given index (the harness callbacks implement this)
-WantedOk(idx) == idx \in {0, 100}
+\* (30000 .. 30255: `success = true` with the other members of the struct set to something -- a named exception, a raw
+\* code, a value that is no enumerator at all, as in a zero-initialised struct: success is success)
+WantedOk(idx) == idx \in {0, 100} \/ (idx >= 30000 /\ idx <= 30255)
 WantedCode(idx) == idx % 256
 
 OnCfg ==
